@@ -28,8 +28,8 @@ RULE = (
 )
 ASSUMPTIONS = ["whole days elapsed are computed on instants (UTC), whatever the written time zones", "income fractions are always short-term"]
 SETTINGS: Dict[str, Dict[str, Any]] = {
-    "quick": {"cases": 5000, "cli_cases": 40, "budget_s": 45, "minimums": {"corpus_runs": 100, "fractions": 7000, "nontrivial": 2000, "near_threshold_both_sides": 1500, "cli_runs": 5}},
-    "thorough": {"cases": 200000, "cli_cases": 150, "budget_s": 300, "minimums": {"corpus_runs": 100, "fractions": 400000, "nontrivial": 80000, "near_threshold_both_sides": 50000, "cli_runs": 100}},
+    "quick": {"cases": 5000, "cli_cases": 40, "budget_s": 45, "minimums": {"corpus_runs": 100, "fractions": 7000, "nontrivial": 2000, "near_threshold_both_sides": 1500, "cli_runs": 5, "runs_with_the_to_date_on_the_disposal_day": 400}},
+    "thorough": {"cases": 200000, "cli_cases": 150, "budget_s": 300, "minimums": {"corpus_runs": 100, "fractions": 400000, "nontrivial": 80000, "near_threshold_both_sides": 50000, "cli_runs": 100, "runs_with_the_to_date_on_the_disposal_day": 15000}},
 }
 
 COUNTRIES: List[Tuple[str, Optional[int], Optional[int]]] = [
@@ -89,14 +89,18 @@ def boundary_history(rng: random.Random, period_days: int) -> Dict[str, Any]:
     return b.done(rng, shuffle=True)
 
 
-def _observe(ctx: Any, ip: Any, hist: Dict[str, Any], country: str, env_value: Optional[int], period: Optional[int], method: str) -> None:
+def _observe(ctx: Any, ip: Any, hist: Dict[str, Any], country: str, env_value: Optional[int], period: Optional[int], method: str, to_s: Optional[str] = None) -> None:
+    from datetime import date
+
     from rpv.drive_inproc import trace_of
 
     model = Model(hist)
-    res = ip.run(hist, {1970: method}, country=country, ltcg=env_value)
+    res = ip.run(hist, {1970: method}, country=country, ltcg=env_value, to_date=date.fromisoformat(to_s) if to_s else None)
     ctx.count("executions")
     ctx.count("valid_cases")
-    case = {"hist": hist, "country": country, "ltcg": env_value, "period": period, "method": method}
+    if to_s:
+        ctx.count("runs_with_the_to_date_on_the_disposal_day")
+    case = {"hist": hist, "country": country, "ltcg": env_value, "period": period, "method": method, "to": to_s}
     if not res.ok:
         ctx.count("unobservable")
         ctx.tag("tag_unobservable", res.error[:80])
@@ -149,7 +153,16 @@ def run_shard(ctx: Any) -> None:
         country, env_value, period = COUNTRIES[index % len(COUNTRIES)]
         reference = period if period is not None else 365
         hist = boundary_history(rng, reference)
-        _observe(ctx, ip, hist, country, env_value, period, rng.choice(METHODS) if country in ("us", "generic") else "fifo")
+        method = rng.choice(METHODS) if country in ("us", "generic") else "fifo"
+        _observe(ctx, ip, hist, country, env_value, period, method)
+        if index % 3 == 0:
+            # the same history cut on the very day of the boundary disposal: classification does not depend on the window
+            from rpv.checks.inproc_util import clean_cut
+            from rpv.gen import parse_ts
+
+            last_day = max(parse_ts(r["ts"]).date() for r in hist["rows"] if r["t"] == "OUT")
+            if clean_cut(hist, last_day):
+                _observe(ctx, ip, hist, country, env_value, period, method, to_s=last_day.isoformat())
         index += ctx.nshards
         done += 1
     ctx.count("inputs", done)
@@ -172,7 +185,7 @@ def replay(ctx: Any, case: Dict[str, Any]) -> None:
 
         cli_slices.c05_replay(ctx, case)
         return
-    _observe(ctx, get_ip(ctx), case["hist"], case["country"], case["ltcg"], case["period"], case["method"])
+    _observe(ctx, get_ip(ctx), case["hist"], case["country"], case["ltcg"], case["period"], case["method"], to_s=case.get("to"))
 
 
 def coverage(merged: Dict[str, Any], tier: str) -> Dict[str, Any]:
